@@ -46,7 +46,7 @@ impl OptChainVisitor<'_> {
              *
              *  (_1 = obj, _2 = _1.b, _2 == null ? undefined : _2.call(_1, arg1, arg2))
              */
-            if let Expr::Member(mut member_expr) = *call_expr.callee.clone() {
+            if let Some(mut member_expr) = member_callee(&call_expr.callee) {
                 let mut member_obj_arguments = Vec::new();
                 let span = DUMMY_SP;
                 let member_obj_ident_opt = self.ident_provider.get_ident_used_in_assignation(
@@ -270,6 +270,16 @@ impl OptChainVisitor<'_> {
             }
             _ => {}
         }
+    }
+}
+
+/// The member expression called by `callee?.()`, also when it is parenthesized: `(a.b)?.()` invokes
+/// `b` with `a` as receiver too, so the object has to be kept for the `.call(receiver, ...)` rewrite.
+fn member_callee(callee: &Expr) -> Option<MemberExpr> {
+    match callee {
+        Expr::Member(member) => Some(member.clone()),
+        Expr::Paren(paren) => member_callee(&paren.expr),
+        _ => None,
     }
 }
 
